@@ -248,7 +248,7 @@ def generate(unit, template_path, repo=None, canary=False):
     text = _expand_includes(open(template_path).read(), os.path.join(os.path.dirname(os.path.dirname(os.path.abspath(template_path)))))
     parts, defaults = _split_template(text)
     g = Generated(unit)
-    dflt = {'rewrites': ['R1', 'R2', 'R3', 'R5', 'R13'], 'ghost': None, 'ghostarg': None, 'props': [], 'loopinv': None, 'bodyprelude': None}
+    dflt = {'rewrites': ['R1', 'R2', 'R3', 'R5', 'R13'], 'ghost': None, 'ghostarg': None, 'props': [], 'loopinv': None, 'bodyprelude': None, 'attr': None}
     heapmethods = set()
     for d in defaults:
         if d.kind == 'default':
@@ -608,6 +608,8 @@ def generate(unit, template_path, repo=None, canary=False):
                     inserts.append((lay['body_open'] + 1, '\n' + ptxt.rstrip() + '\n', ('contract', fi.name, 'proof')))
                 else:
                     raise AnchorError(f'template line {sd.lineno}: proof needs before=/after=/at=start')
+        if fi.attr is None and dflt.get('attr') and ghost and fi.is_fn:
+            fi.attr = dflt['attr']
         if fi.attr:
             inserts.append((0, fi.attr + ' ', None))
         # ---- emit
